@@ -1,11 +1,15 @@
 import GV.Lib.Line
 import GV.Model.Walkers
+import GV.Lib.CborBytes
 /-
   C02 driver (feed_impl: `op \t implementation-output`).
   op: <entry> <hex>.   Generic entries are predicted exactly:
     wf    -> ok <n> | err
     ainfo -> a=<cnt>,<hdr>,<indef> m=<cnt>,<hdr>,<indef>
     hdr   -> a=<len>,<hdrlen>|err m=<len>,<hdrlen>|err
+    rawb <hex> <offset> <length> -> nil | <lo>,<hi>      StreamDecoder.RawBytes
+  For `wf` the two CBOR libraries of the framework (GV.CborT.decode, GV.Cbor.wfItem) are
+  cross-checked on the same bytes; a disagreement is reported as the model output.
   Typed entries: the model admits `ok` and `err`; `ok` is admitted only when the
   bytes start with a well-formed item of admissible depth (except `addr`, whose
   input is not CBOR, and `idlist`/`skipn`, which do not decode one whole item).
@@ -33,6 +37,22 @@ def hdrStr (o : Out (Option (Nat × Nat))) : String :=
   | .val none => "err"
   | .oob => "OOB"
 
+/-- Cross-check of the two CBOR libraries of the framework: the tree decoder
+    `GV.CborT.decode` (this group) and the byte-level stack machine `GV.Cbor.wfItem`
+    (g10b) must agree on whether a well-formed item starts the input and on its length. -/
+def libsAgree (b : Bytes) : Bool :=
+  match decode b, GV.Cbor.wfItem b with
+  | some (_, r), .ok n => n == b.length - r.length
+  | none, .ok _ => false
+  | some _, _ => false
+  | none, _ => true
+
+def rawStr (o : Out (Option (Int × Int))) : String :=
+  match o with
+  | .val (some (lo, hi)) => s!"{lo},{hi}"
+  | .val none => "nil"
+  | .oob => "OOB"
+
 def needsWf (entry : String) : Bool :=
   !(entry == "addr" || entry == "idlist" || entry == "skipn")
 
@@ -46,6 +66,7 @@ def handle (line : String) : Out :=
     | some b =>
       let spec := "ok*||err*"
       if entry == "wf" then
+        if !libsAgree b then { model := "LIBS-DISAGREE (GV.CborT.decode vs GV.Cbor.wfItem)", spec } else
         { model := match wf b with | some n => s!"ok {n}" | none => "err", spec }
       else if entry == "ainfo" then
         { model := s!"a={infoStr (infoOf 0x80 b)} m={infoStr (infoOf 0xa0 b)}", spec := "a=*" }
@@ -54,10 +75,15 @@ def handle (line : String) : Out :=
       else
         let model :=
           -- (DecodeAllDiagnostic on empty input decodes zero items)
-          if impl == "ok" then
+          if impl == "ok" && entry == "diag" && wf b != some b.length then "err"  -- one item, no trailing bytes
+          else if impl == "ok" then
             (if needsWf entry && !(entry == "sdiag" && b.isEmpty) && (wf b).isNone then "err" else "ok")
           else "err"
         { model, spec }
+  | ["rawb", hex, off, ln] =>
+    match parseHex? hex, parseInt? off, parseInt? ln with
+    | some b, some o, some l => { model := rawStr (rawBytes b.length o l), spec := "*" }
+    | _, _, _ => badOp
   | _ => badOp
 
 end GV.Drv.C02
